@@ -1,4 +1,5 @@
 import Bt.Driver.Engine
+import Bt.Driver.Wiring
 import Bt.Driver.Risk
 import Bt.Driver.Report
 import Bt.Driver.Weigh
@@ -23,6 +24,7 @@ def dispatch (line : String) : String :=
   | "weigh" :: _ => handleWeigh (l.drop 6).toString
   | "report" :: _ => handleReport (l.drop 7).toString
   | "risk" :: _ => handleRisk (l.drop 5).toString
+  | "wiring" :: _ => handleWiring (l.drop 7).toString
   | _ => "bad unknown-request"
 
 partial def loop (h : IO.FS.Stream) (out : IO.FS.Stream) : IO Unit := do
